@@ -644,7 +644,13 @@ pub fn run(tier: &str, seed: u64) -> i32 {
             let mut prog = arms_program(&s.expr, pos, false, "N");
             // a multi-paragraph doc comment (blank line) on the host and on a helper
             if let Some(h) = prog.defs.last_mut() {
-                h.docs = vec!["host doc".into(), "".into(), "second paragraph".into()];
+                h.docs = vec![
+                    "host doc".into(),
+                    "".into(),
+                    "second paragraph".into(),
+                    // characters that need escaping in a doc attribute, a comment terminator, braces, non-ASCII
+                    " with \"quotes\", a \\ backslash and */ {braces} \u{e9}\u{fc}\u{4e16}".into(),
+                ];
             }
             prog.defs[D_N].docs = vec![" indented".into()];
             cases.push(SwitchCase {
